@@ -10,12 +10,15 @@ dp=$(grep -o '\(x\|app\|tests\|testutil\)/[a-zA-Z0-9_/.]*_test\.go' $O/demo_path
 pkg=./$(dirname $dp)
 cp $O/demo_test.go $dp
 name=$(grep -o 'func Test[A-Za-z0-9_]*' $dp | head -1 | sed 's/func //')
+# prefer the -run pattern the author of the demo wrote down
+pat=$(grep 'go test' $O/demo_path.txt | head -1 | grep -o "\-run '\?[^' ]*'\?" | sed "s/-run //; s/'//g")
+[ -n "$pat" ] && name="$pat"
 echo "[$P/$N] demo $dp ($name) in $pkg"
-go test -vet=off -count=1 -run "$name" $pkg > $O/confirm_clean.log 2>&1 && echo "  clean: demo PASS" || echo "  clean: demo FAIL (unexpected)"
+go test -vet=off -count=1 -timeout 60m -run "$name" $pkg > $O/confirm_clean.log 2>&1 && echo "  clean: demo PASS" || echo "  clean: demo FAIL (unexpected)"
 git apply $O/patch.diff || { echo "  patch does not apply"; exit 1; }
 go build ./... > $O/confirm_build.log 2>&1 && echo "  patched: builds" || echo "  patched: BUILD FAILS"
-go test -vet=off -count=1 -run "$name" $pkg > $O/confirm_mut.log 2>&1 && echo "  patched: demo PASS (unexpected)" || echo "  patched: demo FAIL (expected)"
+go test -vet=off -count=1 -timeout 60m -run "$name" $pkg > $O/confirm_mut.log 2>&1 && echo "  patched: demo PASS (unexpected)" || echo "  patched: demo FAIL (expected)"
 rm -f $dp
-go test -vet=off -count=1 -p 4 ./x/... ./app/... ./tests/integration/... > $O/confirm_suite.log 2>&1
+go test -vet=off -count=1 -timeout 120m -p 4 ./x/... ./app/... ./tests/integration/... > $O/confirm_suite.log 2>&1
 echo "  patched: suite failures: $(grep -c '^FAIL\|^--- FAIL' $O/confirm_suite.log)"
 git checkout -q -- . ; git clean -fdq -e OUT
